@@ -509,6 +509,23 @@ func childPeers(b run.Batch, r *ev.Result, rng *rand.Rand) {
 
 // ---------------------------------------------------------------- shutdown scenarios
 
+// smallWindowDialer: client sockets with a minimal receive buffer and MSS (set
+// before connect), so that a reply the peer does not read cannot disappear
+// into socket buffers.
+func smallWindowDialer() net.Dialer {
+	return net.Dialer{Timeout: 5 * time.Second, Control: func(network, address string, c syscall.RawConn) error {
+		var serr error
+		if err := c.Control(func(fd uintptr) {
+			if serr = syscall.SetsockoptInt(int(fd), syscall.SOL_SOCKET, syscall.SO_RCVBUF, 2048); serr == nil {
+				serr = syscall.SetsockoptInt(int(fd), syscall.IPPROTO_TCP, syscall.TCP_MAXSEG, 256)
+			}
+		}); err != nil {
+			return err
+		}
+		return serr
+	}}
+}
+
 // nonReaders gives device B a migration order close to the 64 KiB limit (so
 // that its sync reply cannot disappear into socket buffers) and opens n
 // connections with a minimal receive buffer and MSS that send B's id and
@@ -528,17 +545,7 @@ func (w *world) nonReaders(n int) ([]net.Conn, error) {
 		return nil, fmt.Errorf("long sync reply not delivered to a reading peer: err %v refused %v len %d", err, refused, len(rep.SignedPart))
 	}
 	w.r.Count("nonreader.long_reply_read_by_wellbehaved_peer", 1)
-	d := net.Dialer{Timeout: 5 * time.Second, Control: func(network, address string, c syscall.RawConn) error {
-		var serr error
-		if err := c.Control(func(fd uintptr) {
-			if serr = syscall.SetsockoptInt(int(fd), syscall.SOL_SOCKET, syscall.SO_RCVBUF, 2048); serr == nil {
-				serr = syscall.SetsockoptInt(int(fd), syscall.IPPROTO_TCP, syscall.TCP_MAXSEG, 256)
-			}
-		}); err != nil {
-			return err
-		}
-		return serr
-	}}
+	d := smallWindowDialer()
 	var conns []net.Conn
 	for i := 0; i < n; i++ {
 		run.Op("sync request for device %d from a peer with a 2 KiB receive buffer that never reads", w.B.ID)
